@@ -116,6 +116,8 @@ QJsonObject to_json(const Plan &p)
     s["spurious_pm"] = p.spurious_pm;
     s["time_adv_pct"] = p.time_adv_pct;
     s["clock_yield_pct"] = p.clock_yield_pct;
+    if (p.io_yield_pct)
+        s["io_yield_pct"] = p.io_yield_pct;
     if (p.max_decisions != 20000)
         s["max_decisions"] = p.max_decisions;
     s["stall_tid"] = p.stall_tid;
@@ -164,6 +166,7 @@ bool from_json(const QJsonObject &o, Plan &p, std::string *err)
     p.spurious_pm = s["spurious_pm"].toInt();
     p.time_adv_pct = s["time_adv_pct"].toInt(20);
     p.clock_yield_pct = s["clock_yield_pct"].toInt(0);
+    p.io_yield_pct = s["io_yield_pct"].toInt(0);
     p.max_decisions = s["max_decisions"].toInt(20000);
     p.stall_tid = s["stall_tid"].toInt(-1);
     p.stall_from = s["stall_from"].toInt();
@@ -794,6 +797,45 @@ Plan gen_C11(Gen &g, Plan p)
 
 Plan gen_C19(Rng &r, Plan p, bool thorough); // c19.cpp
 
+// C08, thread slice: several compressing sinks, each used by one thread only, rotating at the same time.
+// (The single-threaded engine cannot see state that different sink objects share.)
+static Plan gen_C08T(Gen &g, Plan p)
+{
+    p.target = "sinks";
+    p.app = false;
+    p.poison = false;
+    p.root = Node();
+    p.root.kind = "pipe";
+    int np = (int)g.r.range(2, 4);
+    static const int Ls[] = { 200, 1000, 9000, 20000, 70000 };
+    int L = Ls[g.r.below(5)];
+    p.cfg["family"] = "dual-sinks";
+    p.cfg["L"] = L;
+    p.cfg["sinks"] = np;
+    for (int i = 0; i < np; i++) {
+        std::vector<Op> ops;
+        int n = (int)g.r.range(3, 10);
+        for (int k = 0; k < n; k++) {
+            Op o = mkop("send", 0, 0, 0, 0, kPayloads[g.r.below(kNumPayloads)]);
+            // sizes around the limit and beyond the 8 KiB CRC read buffer
+            static const int szs[] = { 10, 150, 900, 8000, 8200, 17000, 40000 };
+            o.e = szs[g.r.below(7)] % (2 * L + 100);
+            ops.push_back(o);
+            if (g.r.chance(1, 4))
+                ops.push_back(mkop("yield"));
+        }
+        p.producers.push_back(ops);
+    }
+    for (int i = 0; i < np; i++)
+        p.main_ops.push_back(mkop("spawn", i + 1));
+    p.main_ops.push_back(mkop("join", -1));
+    gen_sched(g, p, np);
+    static const int io[] = { 30, 100, 100, 10 };
+    p.io_yield_pct = io[g.r.below(4)];
+    p.spurious_pm = 0;
+    return p;
+}
+
 Plan generate(const std::string &prop, const std::string &tier, uint64_t seed)
 {
     Plan p;
@@ -814,6 +856,8 @@ Plan generate(const std::string &prop, const std::string &tier, uint64_t seed)
         return gen_C11(g, p);
     if (prop == "C19")
         return gen_C19(g.r, p, g.thorough);
+    if (prop == "C08")
+        return gen_C08T(g, p);
     return p;
 }
 
